@@ -14,6 +14,7 @@ import TzVerif.Spec.Zone
 import TzVerif.Proofs.Search
 import TzVerif.Proofs.SearchRule
 import TzVerif.Proofs.SpecGaps
+import TzVerif.Proofs.SrcEqFind
 
 namespace TzVerif.C06
 open TzVerif.Model TzVerif.Proofs
@@ -148,5 +149,22 @@ theorem reported_gaps_are_the_spec_set (y mo d h mi s ns : Int) (z : TimeZone) (
 theorem spec_gap_set_meaning (z : TimeZone) (c T : Int) (a b : LocalTimeType) :
     (T, a, b) ∈ Spec.gapSet z c ↔ ((T, a, b) ∈ Spec.transitionsNear z c ∧ T + a.utOffset ≤ c ∧ c < T + b.utOffset) :=
   gapSet_mem_iff z c T a b
+
+/-! ### The same about the source text
+`TzVerif.Src.find_date_time` is src/datetime/find.rs `find_date_time` translated to Lean on every run
+(tools/rs2lean.py, DESIGN §13): both loops, the memoising `get_time` closure and every early return. It equals
+the model's search, so every theorem of this file is about the code as it is now. -/
+
+theorem translated_source_is_the_model (y mo d h mi s ns : Int) (z : TimeZone) :
+    Src.find_date_time [] y mo d h mi s ns z = findDateTime y mo d h mi s ns z :=
+  SrcEq.find_date_time_eq y mo d h mi s ns z
+
+/-- `reported_gaps_are_the_spec_set` about the translated search -/
+theorem reported_gaps_are_the_spec_set_src (y mo d h mi s ns : Int) (z : TimeZone) (rs : List Found)
+    (hz : ZoneGood z) (hfd : FieldsGood y mo d h mi s)
+    (hf : Src.find_date_time [] y mo d h mi s ns z = .ok rs) (T : Int) (a b : LocalTimeType) :
+    (T, a, b) ∈ Spec.gapSet z (Spec.seconds y mo d h mi s) ↔
+      ∃ xb xa, Found.skipped xb xa ∈ rs ∧ xb.unixTime = T ∧ xb.localTimeType = a ∧ xa.localTimeType = b :=
+  reported_gaps_are_the_spec_set y mo d h mi s ns z rs hz hfd (SrcEq.find_date_time_eq y mo d h mi s ns z ▸ hf) T a b
 
 end TzVerif.C06
